@@ -1,5 +1,7 @@
-(* C07 — places where the unchanged code violates the property: concrete oracles on
-   the faithful model, carrier = primitive binary64 floats, decided by computation.
+(* C07 — places where the code violates the property (F-LS-ZOOM-CONS, the uncapped inner
+   loop of rprop) and REGRESSION witnesses of four defects that were repaired in /repo
+   (c65a3ee, 8bc6fe7 dense rprop; f6a3a16 dense adam; c75edfb bfgs): concrete oracles on the
+   faithful model, carrier = primitive binary64 floats, decided by computation.
    Each is reproduced on the Go implementation by corpus/C07/corpus.jsonl. *)
 From Coq Require Import ZArith List Bool Floats.
 From ADV Require Import Base.Num Base.Corr C07.Model C07.Spec C07.Corr.
@@ -18,26 +20,26 @@ Definition sq (q : query (A := float)) : answer :=
   end.
 Definition Fsq : nat -> query -> answer := fun _ => sq.
 
-(* ---- F-RPROP-DENSE-STOP: rprop_dense returns x1 after testing the gradient of x2 *)
+(* ---- regression (was F-RPROP-DENSE-STOP, fixed by c65a3ee): the returned point now passes *)
 Definition P1 : rp_params := mkRp 0.5 1.25 0.5 0.25 100%Z false false.
 
-Lemma rprop_dense_stop_refuted :
+Lemma rprop_dense_stop_regression :
   exists x tr, rprop_dense NumF Fsq noHK noCS P1 50 [1] = (Converged x, tr) /\
-     (* the objective re-evaluated at the returned point fails the routine's stop test *)
-     PrimFloat.ltb (norm NumF (a_g (sq (QGrad x)))) (rp_eps P1) = false.
+     PrimFloat.ltb (norm NumF (a_g (sq (QGrad x)))) (rp_eps P1) = true.
 Proof. eexists; eexists; split; vm_compute; reflexivity. Qed.
 
-(* ---- F-RPROP-DENSE-HOOK0: the first hook call of rprop_dense carries the dummy gradient *)
+(* ---- regression (was F-RPROP-DENSE-HOOK0, fixed by 8bc6fe7): the first hook call carries
+   the gradient of x0 *)
 Definition hook_gradients_honest (f : query -> answer) (tr : trace (A := float)) : bool :=
   forallb (fun e => match e with
                     | EvHook h _ => vfeqb (h_g h) (a_g (f (QGrad (h_x h))))
                     | _ => true end) tr.
 Definition P2 : rp_params := mkRp 0.5 1.25 0.5 0.25 100%Z true false.
 
-Lemma rprop_dense_first_hook_refuted :
-  hook_gradients_honest sq (snd (rprop_dense NumF Fsq noHK noCS P2 50 [1])) = false /\
-  last (snd (rprop_dense NumF Fsq noHK noCS P2 50 [1])) (EvCons [] true)
-    = EvHook (mkHook [1] [1] None [0.5]) false.   (* g = [1] passed for x = [1], f'(1) = 2 *)
+Lemma rprop_dense_first_hook_regression :
+  hook_gradients_honest sq (snd (rprop_dense NumF Fsq noHK noCS P2 50 [1])) = true /\
+  nth 1 (rev (snd (rprop_dense NumF Fsq noHK noCS P2 50 [1]))) (EvCons [] true)
+    = EvHook (mkHook [1] [2] None [0.5]) false.   (* g = [2] = f'(1) passed for x = [1] *)
 Proof. split; vm_compute; reflexivity. Qed.
 
 (* the same oracle on rprop(): every hook call is honest and the returned point passes *)
@@ -47,7 +49,8 @@ Example rprop_same_oracle_ok :
      PrimFloat.ltb (norm NumF (a_g (sq (QGrad x)))) (rp_eps P2) = true.
 Proof. split; [vm_compute; reflexivity | eexists; eexists; split; vm_compute; reflexivity]. Qed.
 
-(* ---- F-BFGS-CONS: bfgs consults the constraint callback for x0 only *)
+(* ---- regression (was F-BFGS-CONS, fixed by c75edfb): the constraints reach the line search;
+   the old witness now ends with an error at the boundary instead of returning the rejected 3 *)
 Definition submitted_and_accepted (tr : trace (A := float)) (x : list float) : bool :=
   existsb (fun e => match e with EvCons x' true => vfeqb x x' | _ => false end) tr.
 (* f(x) = (x-3)^2 *)
@@ -60,12 +63,10 @@ Definition sh (q : query (A := float)) : answer :=
 Definition le1 : nat -> list float -> bool := fun _ x => match x with [v] => PrimFloat.leb v 1 | _ => false end.
 Definition P3 : bf_params := mkBf 0x1p-20 50%Z false true [[1]].
 
-Lemma bfgs_constraints_refuted :
-  exists x tr, bfgs NumF KF (fun _ => sh) noHK le1 P3 200 [0] = (Converged x, tr) /\
-     le1 0%nat x = false /\                       (* the constraint rejects the returned point *)
-     submitted_and_accepted tr x = false /\       (* it was never submitted *)
-     n_evals tr = 5%nat.
-Proof. eexists; eexists; split; [vm_compute; reflexivity | split; [|split]; vm_compute; reflexivity]. Qed.
+Lemma bfgs_constraints_regression :
+  exists x tr, bfgs NumF KF (fun _ => sh) noHK le1 P3 400 [0] = (Err x, tr) /\
+     le1 0%nat x = true /\ submitted_and_accepted tr x = true.
+Proof. eexists; eexists; split; [vm_compute; reflexivity | split; vm_compute; reflexivity]. Qed.
 
 (* ---- F-LS-ZOOM-CONS: zoom never submits its trial steps to the constraint callback *)
 (* phi(a) = -a + 2 a^2,  Alpha1 = 1, constraint 0.875 <= a <= 1.125 *)
@@ -91,11 +92,11 @@ Lemma rprop_inner_loop_uncapped_refuted :
   fst (rprop NumF fail_after_first noHK noCS (mkRp 0.5 1.25 0.5 0.25 1%Z false false) fuel [1]) = OutOfFuel.
 Proof. intros fuel H. simpl in H. repeat (destruct H as [<- | H]; [vm_compute; reflexivity|]). destruct H. Qed.
 
-(* ---- F-ADAM-CAP-CONS: at the iteration cap adam returns the freshly updated point,
-   which was never evaluated nor submitted to the constraint callback *)
+(* ---- regression (was F-ADAM-CAP-CONS, fixed by f6a3a16): at the iteration cap adam returns
+   the last evaluated and accepted point *)
 Definition ge1 : nat -> list float -> bool := fun _ x => match x with [v] => PrimFloat.leb 1 v | _ => false end.
 Definition P4 : ad_params := mkAd 0x1.0624dd2f1a9fcp-10 0.5 0.5 0x1p-20 0x1.5798ee2308c3ap-27 1%Z false true.
-Lemma adam_cap_constraints_refuted :
+Lemma adam_cap_constraints_regression :
   exists x tr, adam_dense NumF Fsq noHK ge1 P4 10 [1] = (Cap x, tr) /\
-     ge1 0%nat x = false /\ submitted_and_accepted tr x = false.
+     ge1 0%nat x = true /\ submitted_and_accepted tr x = true.
 Proof. eexists; eexists; split; [vm_compute; reflexivity | split; vm_compute; reflexivity]. Qed.
